@@ -97,7 +97,9 @@ def rand_desc(r):
         d["mtype"] = r.choice(["text", "media", "other"])
         d["hasProto"] = r.choice([1, 1, 1, 0])
         d["media"] = r.choice(list(stanzas.MEDIA))
-        d["payload"] = r.choice(["conversation", "extendedText", "keyDistributionOnly", "other"])
+        d["payload"] = r.choice(["conversation", "extendedText", "keyDistributionOnly", "other", "other"])
+        if d["payload"] == "other" and r.random() < 0.85:
+            d["pseed"] = r.randrange(1 << 30)        # a generated unpresentable payload (lib/stanzas.unpresentable_payload)
         d["participant"] = r.choice([0, 1])
     elif tag == "iq":
         d["iqType"] = r.choice(["get", "set", "result", "error"])
